@@ -114,6 +114,11 @@ def stepJson (w' : World) (op : WorldOp) (o : Obs) : Json :=
       | some e => wrapsJson e.core.fields
       | none => Json.mkObj []
     Json.mkObj (base ++ [("wraps", wr)])
+  | .toSchema c =>
+    let req := match alookup c w'.classes with
+      | some e => strs e.required
+      | none => Json.null
+    Json.mkObj (base ++ [("requiredAfter", req)])
   | _ => Json.mkObj base
 
 /-- run the model operations of one harness operation; report the last one's observation -/
